@@ -850,13 +850,31 @@ func %[1]sArrayToPQ(ids []%[1]s) pq.Int64Array {
 			}
 		}
 		sep := sg.pick("uniqueSep", []string{"(", " ("})
-		d.Doc = append(d.Doc, fmt.Sprintf("gomacro:SQL ADD %s%s%s)", kw, sep, strings.Join(cols, ", ")))
+		pad := ""
+		if rapid.IntRange(0, 4).Draw(t, "uniquePad") == 0 {
+			pad = " " // ADD UNIQUE( a, b )
+			o.class("directive:padded_column_list")
+		}
+		d.Doc = append(d.Doc, fmt.Sprintf("gomacro:SQL ADD %s%s%s%s%s)", kw, sep, pad, strings.Join(cols, ", "), pad))
 		o.class("directive:" + strings.ToLower(strings.ReplaceAll(kw, " ", "_")))
+		// a second, different UNIQUE constraint on plain columns of the same table
+		if kw == "UNIQUE" && len(plainCols) >= 2 && rapid.IntRange(0, 2).Draw(t, "secondUnique") == 0 {
+			second := pickDistinct(t, plainCols, rapid.IntRange(1, 2).Draw(t, "secondUniqueN"), "secondUniqueCol")
+			if strings.Join(second, ",") != strings.Join(cols, ",") {
+				d.Doc = append(d.Doc, fmt.Sprintf("gomacro:SQL ADD UNIQUE(%s)", strings.Join(second, ", ")))
+				o.class("directive:two_unique_constraints")
+			}
+		}
 	}
 	if rapid.IntRange(0, 3).Draw(t, "selectKeyDirective") == 0 && len(plainCols) > 0 {
 		n := rapid.IntRange(1, min(2, len(plainCols))).Draw(t, "selectKeyN")
 		cols := pickDistinct(t, plainCols, n, "selectKeyCol")
-		d.Doc = append(d.Doc, fmt.Sprintf("gomacro:SQL _SELECT KEY(%s)", strings.Join(cols, ", ")))
+		pad := ""
+		if rapid.IntRange(0, 4).Draw(t, "selectKeyPad") == 0 {
+			pad = " "
+			o.class("directive:padded_column_list")
+		}
+		d.Doc = append(d.Doc, fmt.Sprintf("gomacro:SQL _SELECT KEY(%s%s%s)", pad, strings.Join(cols, ", "), pad))
 		o.class("directive:select_key")
 	}
 	if o.Directives {
